@@ -46,7 +46,9 @@ from ..core.sweep import sweep
 # ---------------------------------------------------------------------------------------
 # bounds (data)
 
-CNF_APIS = ("cnf", "cnf_as_set", "CNFizer.convert_as_formula", "PolarityCNFizer.convert_as_formula")
+CNF_APIS = ("cnf", "cnf_as_set", "CNFizer.convert_as_formula", "PolarityCNFizer.convert_as_formula",
+            # the same converters working in an environment that is NOT the one on top of the stack
+            "CNFizer@other-env", "PolarityCNFizer@other-env")
 K_MAX = 18                      # fresh Boolean symbols handled bit-parallel (2^18-bit blocks)
 SLOW_MAX = 1 << 14              # (I, J) pairs of the generic (non bit-parallel) path
 CNF_DOM = {INT: (-1, 0, 1)}     # value pool of Int symbols in CNF parts (BV: all values)
@@ -60,6 +62,10 @@ ACK_PAIR_CAP = 40000            # (I', J) pairs per formula in direction (B); ab
 ACK_SEARCH_CAP = 30000          # evaluations of one fall-back witness search
 
 _CONNECTIVES = frozenset([op.AND, op.OR, op.NOT, op.IMPLIES, op.IFF, op.FORALL, op.EXISTS])
+
+
+class ForeignNode(Exception):
+    pass
 
 
 def _is_fun(s):
@@ -314,7 +320,33 @@ class _Shown(object):
             return repr(g)
 
 
+def _other_env(env):
+    """the companion of env: an environment of its own that is never pushed on the stack (same symbol
+    names and sorts as env, since it only ever receives copies of env's formulas)"""
+    env2 = getattr(env, "_c11_other_env", None)
+    if env2 is None or len(env2.formula_manager.formulae) > 300000:
+        from pysmt.environment import Environment
+        env2 = env._c11_other_env = Environment()
+    return env2
+
+
 def _call_cnf(api, env, f):
+    if api.endswith("@other-env"):
+        env2 = _other_env(env)
+        f2 = env2.formula_manager.normalize(f)
+        cls = rw.CNFizer if api.startswith("CNFizer") else rw.PolarityCNFizer
+        g2 = cls(environment=env2).convert_as_formula(f2)
+        # every node of the result has to live in the converter's own environment
+        stack, seen = [g2], set()
+        while stack:
+            n = stack.pop()
+            if n in seen:
+                continue
+            seen.add(n)
+            if n not in env2.formula_manager:
+                raise ForeignNode("the result contains the node %s of another formula manager" % (n,))
+            stack.extend(n.args())
+        return g2
     if api == "cnf":
         return rw.cnf(f, env)
     if api == "cnf_as_set":
